@@ -13,6 +13,7 @@ Not modelled: MolecularData / HDF5 (oracle only).
 import OFV.Proofs.C20
 import OFV.Proofs.C20Files
 import OFV.Proofs.C20Coef
+import OFV.Proofs.C20Mol
 import Mathlib.Tactic.NormNum
 
 namespace OFV.C20
@@ -116,6 +117,15 @@ theorem coef_contract_int (nt : NumTables) (z : Int) (hmem : ∃ w, (intStr z, w
     (hagree : ∀ e ∈ nt.pyFloat, ∀ v, floatIntModel e.1 = some v → e.2 = v) :
     CoefOK nt (intStr z) (intGQ z) :=
   coefOK_int_of_model nt z hmem hagree
+
+/-- **molecular_data_attribute_table** (`MolecularData.save` / `load` conventions `None ↦ False ↦ None`, `int(...)`,
+`float(...)`; h5py itself is a contract): `None`, every number (zero included) and every array survive
+`decode ∘ encode`; only a boolean-valued attribute collides with the sentinel -/
+theorem molecular_data_attribute_table (v : AttrVal) (h : ∀ b, v ≠ .bool b) :
+    decodeAttr 0 (encodeAttr v) = v ∧ decodeAttr 1 (encodeAttr (.int 0)) = .int 0 ∧
+      decodeAttr 2 (encodeAttr (.real 0)) = .real 0 ∧ (∀ k, decodeAttr k (encodeAttr .none) = .none) ∧
+      (∀ b k, decodeAttr k (encodeAttr (.bool b)) = .none) :=
+  ⟨attr_roundtrip_keep v h, rfl, rfl, fun _ => rfl, fun _ _ => rfl⟩
 
 /-- **overwrite_guard.**  `save_operator` without `allow_overwrite` on an existing file raises and
 (returning an error) leaves the file system as it was. -/
